@@ -246,7 +246,7 @@ let shard, nshards =
   | _ -> (0, 1)
 let ctr = ref 0
 let both_s (emit : emit) (case : unit -> string) (f : bool -> string) =
-  let mine = !ctr mod nshards = shard in
+  let mine = Streams.mine () in
   incr ctr;
   if mine then both emit (case ()) f else emit "" "" ""
 
